@@ -534,6 +534,10 @@ def check_C04(tier, seed):
         "every face of every cell of every embedded lattice tessellation: unit normal away from the left generator "
         "(outward through the wall for boundary faces), plane normal = spec normal, centroid on the bisector, closure and "
         "divergence identities per cell; distinct = (input, embedding, cell) triples", with_tess=True)
+    measure_model(out, tier, seed, ["R3s", "D1p"] if tier == "quick" else ["R3a", "P3a", "P2a", "D2a", "D1a", "D1p"], 4 if tier == "quick" else 60, "C04")
+    out.coverage["rule"] += (" || design level (VMeasure.MeasureOK): on every finished cell of the specification the area vectors of all faces cancel "
+                             "EXACTLY (closed surface) and every face pyramid has volume area x height / 3 with the height measured along the "
+                             "inward normal (orientation of the faces = counter-clockwise about the inward normal)")
     return out.finish()
 
 
